@@ -7,7 +7,6 @@ notes={
  'M38':'equivalent under the quantifier: an exact duplicate Follow_Up overwrites the response time with the same value',
  'M39':'only changes the outcome when two candidates compare equal, i.e. inside the open finding C05.outcome_depends_on_announce_order; caught by the existing tests anyway',
  'M42':'no longer compiles after fix 1ef560e; torn-update mutants live in /verif/c17/mutants (m1a, m1b, both detected) and S-C17-2',
- 'S-C19-4':'outside what runs as real code for C19: the change is in the publication step of the daemon (`run()` in main.rs hands the pre-BMCA port estimate to `current_ds`); expsim runs the real observer and exporter on states built by the ptpsim host model with the same getter calls, and daemonsim runs the real main.rs but does not read the watch channel. Named as a limit in 0.2',
  'M26':'arms changed by fix 0a6e9da; was caught by the existing tests',
 }
 def key(k):
